@@ -37,13 +37,14 @@ def build_groups(ctx: Ctx):
         pairs = [p for i, p in enumerate(pairs) if i in keep or len(p) == 1]
     for idxs in pairs:
         rules = [U[i] for i in idxs]
-        paths = rt.paths_for(rules, rng, 28 if q else 60)
+        paths = rt.paths_for(rules, rng, 28 if q else 40)
         for (s, m) in (settings() if not q else [rng.choice(settings()), rng.choice(settings())]):
             cases = [(p, meth, rt.NOQ) for p in paths for meth in (("GET",) if q else ("GET", "POST"))]
             cases += [(p, rng.choice(rt.METHODS), rt.NOQ) for p in paths[:10]]
             groups.append((rt.make_cfg(rules, s, m), True, cases))
+    groups += lenient_405_groups(ctx, rng)
     # (b) random maps of 1..6 rules, several insertion orders
-    for _ in range(90 if q else 2500):
+    for _ in range(90 if q else 1500):
         k = rng.randint(1, 6)
         rules = rt.random_rules(rng, k)
         paths = rt.paths_for(rules, rng, 30 if q else 70)
@@ -57,6 +58,30 @@ def build_groups(ctx: Ctx):
         for o in orders:
             cases = [(p, rng.choice(rt.METHODS), rt.NOQ) for p in paths]
             groups.append((rt.make_cfg([rules[i] for i in o], s, m), True, cases))
+    return groups
+
+
+def lenient_405_groups(ctx: Ctx, rng):
+    """Leaf rules with method sets whose strict_slashes is off (map level or per-rule override), alone and mixed with a
+    strict copy / another-method copy, requested with one extra trailing slash and a method outside the set."""
+    groups = []
+    leaves = [r for r in rt.universe() if not r["branch"] and not rt.is_path_rule(r)]
+    if ctx.quick:
+        leaves = rng.sample(leaves, 10)
+    for base in leaves:
+        for mset in (["GET"], ["POST", "PUT"]):
+            variants = [
+                ([dict(base, methods=mset)], False),                                   # map-level strict_slashes=False
+                ([dict(base, methods=mset, strict="f")], True),                        # per-rule override
+                ([dict(base, methods=mset, strict="f"), dict(base, methods=["DELETE"], strict="t")], True),
+                ([dict(base, methods=mset, strict="t"), dict(base, methods=["PATCH"], strict="f")], False),
+                ([dict(base, methods=mset), dict(base, methods=["PATCH"], branch=True)], False),
+            ]
+            for rules, strict in variants:
+                hits = [p for p in rt.paths_for(rules, rng, 40) if not p.endswith("//")][:14]
+                cases = [(p if p.endswith("/") else p + "/", m, rt.NOQ) for p in hits for m in ("GET", "POST", "DELETE", "OPTIONS")]
+                cases += [(p, m, rt.NOQ) for p in hits[:6] for m in ("POST", "DELETE")]
+                groups.append((rt.make_cfg(rules, strict, rng.random() < 0.5), True, cases))
     return groups
 
 
@@ -81,6 +106,8 @@ def judge_groups(ctx: Ctx, groups, clauses=CLAUSES, kind="c03"):
             ctx.sample({"rules": [rt.rule_string(r) for r in g[0]["rules"]], "map": g[0]["map"],
                         "path": "".join(map(chr, ln["path"])), "method": ln["method"], "outcome": ln["r"]["kind"],
                         "rule": ln["r"]["rule"]})
+    ctx.notes["mna_with_extra_trailing_slash"] = ctx.notes.get("mna_with_extra_trailing_slash", 0) + sum(
+        1 for ln in lines if ln["op"] == "match" and ln["r"]["kind"] == "mna" and ln["path"][-1:] == [47] and len(ln["path"]) > 1)
     rejects = ctx.judge(AREA, "RoutingTrace", lines, batch=2500)
     bykey = {(ln["t"], ln.get("i")): ln for ln in lines if ln["op"] != "cfg"}
     for r in rejects:
